@@ -2,14 +2,14 @@
 (`VncModel/Threads/Model.lean`) was built: per function, in textual order, every LOCK / UNLOCK / WAIT /
 TSIGNAL, thread create / join, reference count operation, iterator call, rfbCloseClient /
 rfbClientConnectionGone call, notify-pipe write, `return` / `break` / `continue`, and the stores / tests
-of `cl->state` and `cl->sock` that steer the threads.  It is the skeleton of the code WITH
+of `cl->state` and `cl->sock` that steer the threads (also through other pointers: `*->...`).  It is the skeleton of the code WITH
 fixes/C13-01 .. C13-04 applied.  `tools/consts/c13.py` regenerates the same list from the working tree
 on every run (`VncModel.Gen.C13.skeleton`); `Props.C13.skeleton_matches` compares the two. -/
 namespace VncModel.Threads
 
 def expectedSkeleton : List (String × List String) := [
-  ("clientOutput", ["cl->state==RFB_SHUTDOWN", "return", "cl->state!=RFB_NORMAL", "continue", "LOCK updateMutex", "cl->state==RFB_SHUTDOWN", "UNLOCK updateMutex", "return", "WAIT updateCond updateMutex", "UNLOCK updateMutex", "LOCK updateMutex", "UNLOCK updateMutex", "rfbIncrClientRef", "LOCK sendMutex", "UNLOCK sendMutex", "rfbDecrClientRef", "return"]),
-  ("clientInput", ["pthread_create", "cl->state!=RFB_SHUTDOWN", "break", "break", "continue", "break", "LOCK updateMutex", "cl->state=RFB_SHUTDOWN", "TSIGNAL updateCond", "UNLOCK updateMutex", "THREAD_JOIN", "cl->sock=RFB_INVALID_SOCKET", "rfbClientConnectionGone", "return"]),
+  ("clientOutput", ["*->sock==RFB_INVALID_SOCKET", "cl->state==RFB_SHUTDOWN", "return", "cl->state!=RFB_NORMAL", "continue", "LOCK updateMutex", "cl->state==RFB_SHUTDOWN", "UNLOCK updateMutex", "return", "WAIT updateCond updateMutex", "UNLOCK updateMutex", "LOCK updateMutex", "UNLOCK updateMutex", "rfbIncrClientRef", "LOCK sendMutex", "UNLOCK sendMutex", "rfbDecrClientRef", "return"]),
+  ("clientInput", ["pthread_create", "cl->state!=RFB_SHUTDOWN", "*->sock==RFB_INVALID_SOCKET", "break", "break", "continue", "break", "LOCK updateMutex", "cl->state=RFB_SHUTDOWN", "TSIGNAL updateCond", "UNLOCK updateMutex", "THREAD_JOIN", "cl->sock=RFB_INVALID_SOCKET", "rfbClientConnectionGone", "return"]),
   ("listenerRun", ["return", "continue", "rfbNewClient", "rfbStartOnHoldClient", "return"]),
   ("rfbStartOnHoldClient", ["pthread_create"]),
   ("rfbMarkRegionAsModified", ["rfbGetClientIterator", "rfbClientIteratorNext", "LOCK updateMutex", "TSIGNAL updateCond", "UNLOCK updateMutex", "rfbReleaseClientIterator"]),
@@ -20,10 +20,11 @@ def expectedSkeleton : List (String × List String) := [
   ("rfbRunEventLoop", ["pthread_create", "return", "return"]),
   ("rfbIncrClientRef", ["LOCK refCountMutex", "UNLOCK refCountMutex"]),
   ("rfbDecrClientRef", ["LOCK refCountMutex", "TSIGNAL deleteCond", "UNLOCK refCountMutex"]),
-  ("rfbClientIteratorNext", ["return", "LOCK rfbClientListMutex", "rfbIncrClientRef", "UNLOCK rfbClientListMutex", "rfbDecrClientRef", "return"]),
+  ("rfbClientIteratorNext", ["return", "LOCK rfbClientListMutex", "*->sock<0", "rfbIncrClientRef", "UNLOCK rfbClientListMutex", "rfbDecrClientRef", "return"]),
   ("rfbReleaseClientIterator", ["rfbDecrClientRef", "free"]),
   ("rfbNewTCPOrUDPClient", ["return", "rfbGetClientIterator", "rfbClientIteratorNext", "rfbReleaseClientIterator", "free", "free", "return", "INIT_MUTEX outputMutex", "INIT_MUTEX refCountMutex", "INIT_MUTEX sendMutex", "INIT_COND deleteCond", "INIT_MUTEX updateMutex", "INIT_COND updateCond", "LOCK rfbClientListMutex", "UNLOCK rfbClientListMutex", "rfbCloseClient", "rfbClientConnectionGone", "return", "rfbWriteExact", "rfbCloseClient", "rfbClientConnectionGone", "return", "break", "break", "rfbCloseClient", "rfbClientConnectionGone", "break", "return"]),
   ("rfbClientConnectionGone", ["LOCK rfbClientListMutex", "LOCK refCountMutex", "UNLOCK rfbClientListMutex", "WAIT deleteCond refCountMutex", "UNLOCK refCountMutex", "LOCK rfbClientListMutex", "LOCK refCountMutex", "UNLOCK refCountMutex", "UNLOCK rfbClientListMutex", "free", "free", "free", "free", "free", "free", "free", "free", "TINI_COND updateCond", "TINI_MUTEX updateMutex", "LOCK outputMutex", "UNLOCK outputMutex", "TINI_MUTEX outputMutex", "LOCK sendMutex", "UNLOCK sendMutex", "TINI_MUTEX sendMutex", "free"]),
+  ("rfbProcessClientInitMessage", ["rfbCloseClient", "return", "rfbWriteExact", "rfbCloseClient", "return", "rfbGetClientIterator", "rfbClientIteratorNext", "*->state==RFB_NORMAL", "rfbCloseClient", "rfbReleaseClientIterator", "return", "rfbReleaseClientIterator", "rfbGetClientIterator", "rfbClientIteratorNext", "rfbClientIteratorNext", "*->state==RFB_NORMAL", "rfbCloseClient", "rfbReleaseClientIterator"]),
   ("rfbSendBell", ["rfbGetClientIterator", "rfbClientIteratorNext", "cl->state!=RFB_NORMAL", "continue", "LOCK sendMutex", "rfbWriteExact", "rfbCloseClient", "UNLOCK sendMutex", "rfbReleaseClientIterator"]),
   ("rfbSendServerCutText", ["rfbGetClientIterator", "rfbClientIteratorNext", "cl->state!=RFB_NORMAL", "continue", "LOCK sendMutex", "rfbWriteExact", "rfbCloseClient", "UNLOCK sendMutex", "continue", "rfbWriteExact", "rfbCloseClient", "UNLOCK sendMutex", "rfbReleaseClientIterator"]),
   ("rfbSendServerCutTextUTF8", ["rfbGetClientIterator", "rfbClientIteratorNext", "cl->state!=RFB_NORMAL", "continue", "LOCK sendMutex", "free", "rfbCloseClient", "UNLOCK sendMutex", "continue", "UNLOCK sendMutex", "continue", "UNLOCK sendMutex", "continue", "UNLOCK sendMutex", "rfbWriteExact", "rfbCloseClient", "UNLOCK sendMutex", "continue", "rfbWriteExact", "rfbCloseClient", "UNLOCK sendMutex", "UNLOCK sendMutex", "rfbReleaseClientIterator"]),
